@@ -260,6 +260,22 @@ func init() {
 }
 
 func init() {
+	// olddir NAME secs : the modification time of the directory NAME (relative to the case) is set secs seconds
+	// into the past -- a tree that has not changed for a while (nothing the model knows about)
+	register("olddir", func(s *sess, tk []string) {
+		t := time.Now().Add(-time.Duration(atoi(tk[2])) * time.Second)
+		must(os.Chtimes(filepath.Join(s.dir, tk[1]), t, t))
+		s.obs("olddir ok")
+	})
+	// rmfile NAME : the file is removed (its handle, if the driver holds one, is closed first)
+	register("rmfile", func(s *sess, tk []string) {
+		s.closeAll()
+		must(os.Remove(filepath.Join(s.dir, tk[1])))
+		s.obs("rmfile ok")
+	})
+}
+
+func init() {
 	// createshared A B k s n ... m M x X : two files created from ONE ArchiveInfoList value (a schema
 	// parsed once, Create called in a loop); both handles stay open as A and B
 	register("createshared", func(s *sess, tk []string) {
